@@ -498,8 +498,7 @@ class ApiProp(Prop):
                         for o in pre + [op]:
                             b2.apply(o)
                         al2 = op_alphabet(b2, rng)
-                        if tier != "thorough":
-                            al2 = al2[::3]
+                        al2 = al2[::3] if tier != "thorough" else (al2[::2] if size == 3 else al2)
                         for op2 in al2:
                             cases.append(mk_case(size, 0, [], pre + [op, op2], "exhaustive-2"))
             for ctor in (1, 2, 3):
@@ -508,7 +507,7 @@ class ApiProp(Prop):
                 for op in op_alphabet(b, rng):
                     cases.append(mk_case(size, ctor, mem, [op], "ctor"))
         # (b) random histories
-        nrand = 4000 if tier == "quick" else 120000
+        nrand = 4000 if tier == "quick" else 60000
         for _ in range(nrand):
             size = rng.choice(SIZES_RANDOM[:9]) if rng.random() < 0.9 else rng.choice(SIZES_RANDOM)
             cases.append(random_history(rng, size, 12 if tier == "quick" else 40))
